@@ -33,6 +33,7 @@ def ev_prop(pid):
         'corr': ['Corr/Ev'], 'needs_corr': ['Syn/Ev', 'ExtI/Ev'],
         'cex_ext': 'Cex/%s_ext' % pid, 'cex_syn': 'Cex/%s_syn' % pid,
         'replay_kind': 'evstep',
+        'fallback_search': ('results' if pid == 'C14' else 'state'),
     }
 
 
